@@ -140,8 +140,9 @@ namespace sim
 	void simulation::rebind_socket(ip::tcp::socket* prev, ip::tcp::socket* s, ip::tcp::endpoint ep)
 	{
 		auto i = m_listen_sockets.find(ep);
-		assert(i != m_listen_sockets.end());
-		if (i->second != prev) return;
+		// an accepted socket shares the endpoint of its acceptor. Once the
+		// acceptor is closed the endpoint is no longer registered
+		if (i == m_listen_sockets.end() || i->second != prev) return;
 		i->second = s;
 	}
 
